@@ -277,6 +277,13 @@ _PURE_STDLIB = {"struct", "bisect", "operator", "math", "re", "itertools", "func
                 "decimal", "fractions", "binascii", "base64", "unicodedata"}
 
 
+def _vars(o):
+    """vars(obj): the live instance dictionary of a program-class instance (as `obj.__dict__`)."""
+    if isinstance(o, (Obj, _NativeModel)) and getattr(o, "cls", None):
+        return o.attrs
+    raise TypeError("vars() argument must have __dict__ attribute")
+
+
 def _suppress(*types):
     return Obj(None, __suppress__=list(types))
 
@@ -1031,6 +1038,10 @@ class Interp:
             fi = self.prog.resolve_method(v.cls, name)
             if fi is not None:
                 return BoundMethod(fi, v)
+            for c in self.prog.mro(v.cls):            # `__dunder__ = other_method` in a class body
+                ci = self.prog.classes.get(c)
+                if ci is not None and name in ci.attrs and isinstance(ci.attrs[name], ast.Name) and ci.attrs[name].id in ci.methods:
+                    return BoundMethod(ci.methods[ci.attrs[name].id], v)
         return None
 
     def truth(self, v, node=None) -> bool:
@@ -1301,6 +1312,8 @@ class Interp:
         ok, cn = env.lookup("__classns__")
         if ok and cn and name in self.prog.classes[cn].attrs:
             return self._eval_class_attr(self.prog.classes[cn], self.prog.classes[cn].attrs[name])
+        if ok and cn and name in self.prog.classes[cn].methods:
+            return self.prog.classes[cn].methods[name]          # class body: a name bound by an earlier `def`
         rel = env.lookup("__relpath__")[1]
         m = self.prog.modules.get(rel)
         if m is not None:
@@ -1422,7 +1435,11 @@ class Interp:
                     return BoundMethod(fi, ClassRef(base.cls))
                 return BoundMethod(fi, base)
             if attr in ci.attrs:
-                return self._eval_class_attr(ci, ci.attrs[attr])
+                v = self._eval_class_attr(ci, ci.attrs[attr])
+                if isinstance(v, FuncInfo) and v.cls is not None and not v.is_static:
+                    # `alias = method` in a class body: a plain function found on the class binds to the instance
+                    return BoundMethod(v, ClassRef(base.cls) if v.is_classmethod else base)
+                return v
         return _MISSING
 
     def getattr(self, base, attr: str, node, env: Optional[Env] = None):
@@ -2054,7 +2071,7 @@ _BUILTINS = {
     "len": len, "min": min, "max": max, "all": all, "any": any, "range": range, "int": int, "float": float,
     "bool": bool, "str": str, "list": list, "tuple": tuple, "dict": dict, "set": set, "frozenset": frozenset,
     "sum": _b_sum, "sorted": sorted, "reversed": lambda x: GenList(reversed(x)), "enumerate": lambda x, start=0: GenList(enumerate(x, start)),
-    "zip": lambda *a, strict=False: GenList(zip(*a, strict=strict)), "abs": abs, "repr": repr, "bytes": bytes, "print": lambda *a, **k: None,
+    "zip": lambda *a, strict=False: GenList(zip(*a, strict=strict)), "abs": abs, "repr": repr, "bytes": bytes, "print": lambda *a, **k: None, "vars": lambda o: _vars(o),
     "divmod": divmod, "round": round, "callable": callable, "NotImplemented": NotImplemented,
     "next": _b_next, "iter": _b_iter, "map": lambda f, *a: GenList(map(f, *a)), "filter": lambda f, a: GenList(filter(f, a)),
     "ord": ord, "chr": chr, "hex": hex, "bin": bin, "pow": pow, "id": id, "hash": hash, "format": format, "ascii": ascii,
